@@ -1920,6 +1920,7 @@ static void fam_c17_misuse(G& g, Plan& p) {
   const int bigmix = g.chance(0.4) ? (SM_MEDIUM | SM_LARGE | SM_BOUNDARY) : 0;     // the overflow check is not limited to small blocks
   int kind = (int)g.below(3);
   int n = 40 + (int)g.below(200);
+  const bool hugeover = g.chance(0.04);       // a block above 16 MiB is overflowed as the plan's last operation
   // a few size classes so that pages hold several live blocks
   std::vector<size_t> cls; for (int i = 0; i < 3; i++) cls.push_back(class_req(g, 44));
   for (int i = 0; i < n; i++) {
@@ -1929,6 +1930,7 @@ static void fam_c17_misuse(G& g, Plan& p) {
     else if (k < 33) P.ops.push_back(mk(OP_collect, -1, g.below(2)));
     else if (k < 41) { Op o = mk(kind == 0 ? OP_double_free : kind == 1 ? OP_overflow_byte : OP_corrupt_free_link, (kind == 1 && nt > 1 && g.chance(0.5)) ? 150 + (int)g.below(40) : slot, g.below(1000000)); if (kind == 0) o.b = g.pick<uint64_t>({0, 1, 1, 2, 2, 4, 4}); P.ops.push_back(o); }
     else if (bigmix && g.chance(0.12)) { int bs = (int)g.below(150); P.ops.push_back(mk(OP_malloc, bs, gen_size(g, bigmix))); if (g.chance(0.6)) P.ops.push_back(mk(OP_overflow_byte, bs, g.below(1000000))); }
+    else if (hugeover && i == n - 1) { P.ops.push_back(mk(OP_malloc, 149, 16 * MiB + g.below(24 * MiB))); P.ops.push_back(mk(OP_overflow_byte, 149, g.below(1000000))); }   // last: the run ends with known finding F25
     else P.ops.push_back(mk(g.chance(0.1) ? OP_zalloc : OP_malloc, slot, g.chance(0.12) ? 1 + g.below(7) : g.chance(0.7) ? cls[g.below(cls.size())] : gen_size(g, mix)));
     if (g.chance(0.02)) kind = (int)g.below(3);
   }
